@@ -1,6 +1,7 @@
 package refeval
 
 import (
+	"fmt"
 	"sort"
 	"strconv"
 	"strings"
@@ -38,12 +39,34 @@ func weight(vals []interface{}) int {
 			for _, e := range x {
 				w += len(e)
 			}
+		case Pt:
+			w += ptWeight(x)
+		case []Pt:
+			w += 1000 * len(x)
+			for _, e := range x {
+				w += ptWeight(e)
+			}
 		}
 	}
 	if w < 0 {
 		w = -w
 	}
 	return w
+}
+
+func ptWeight(p Pt) int {
+	w := int(p.X) + 3*int(p.Y)
+	if p.Ok {
+		w += 5
+	}
+	return w
+}
+
+// ptValue is the Pt of source row i: every field is zero in some rows and
+// non-zero in others, without a common period, so that a zero field is decoded
+// over a non-zero one at the same position of the previous batch.
+func ptValue(i int) Pt {
+	return Pt{X: int32(i % 3), Y: int32((i/2)%2) * 7, Ok: i%4 == 1}
 }
 
 func copyRow(r Row) Row { return append(Row(nil), r...) }
@@ -109,6 +132,8 @@ func filterFn(v int, r Row) bool {
 		return false
 	case FilterAlt:
 		return weight(r)%2 == 0
+	case FilterMod3:
+		return weight(r)%3 != 0
 	}
 	panic("refeval: filter variant")
 }
@@ -190,6 +215,8 @@ func SourceRows(s Source) []Row {
 			rows[i] = Row{strconv.Itoa(k) + ":" + strconv.Itoa(v)}
 		case len(s.Schema) == 3:
 			rows[i] = Row{k, (i / 2) % 2, v}
+		case s.Schema[1] == PtCol:
+			rows[i] = Row{k, ptValue(i)}
 		case s.Schema[0] == Str:
 			rows[i] = Row{"k" + strconv.Itoa(k), v}
 		default:
@@ -249,6 +276,15 @@ func CanonRow(r Row) string {
 				b.WriteString(strconv.Quote(e))
 			}
 			b.WriteByte(']')
+		case Pt:
+			b.WriteString(fmt.Sprint(x))
+		case []Pt:
+			y := make([]string, len(x))
+			for j, e := range x {
+				y[j] = fmt.Sprint(e)
+			}
+			sort.Strings(y)
+			b.WriteString("[" + strings.Join(y, ",") + "]")
 		default:
 			b.WriteString("?")
 		}
